@@ -667,6 +667,42 @@ def process_block(blk, emitted_items):
             c0 = match_close(mb0, o0)
             a = dict(a)
             a["_range"] = (o0 + 1, c0)
+        if a.get("from_after") or a.get("to_before"):
+            # the slice is everything between two NEIGHBOURING statements (anchors outside the slice, so that an edit of
+            # the sliced statements themselves cannot lose the anchor)
+            mb0 = mask(body)
+            depth_at = []
+            d0 = 0
+            for ch in mb0:
+                if ch in "([{":
+                    d0 += 1
+                depth_at.append(d0)
+                if ch in ")]}":
+                    d0 -= 1
+            fa, tb = a.get("from_after"), a.get("to_before")
+            if fa:
+                pa = body.find(fa)
+                if pa < 0:
+                    raise AnchorLost("slice from_after anchor %r not found in %s" % (fa, item))
+                k = pa
+                d_anchor = depth_at[pa]
+                while k < len(mb0) and not (mb0[k] == ";" and depth_at[k] == d_anchor):
+                    k += 1
+                if k >= len(mb0):
+                    raise AnchorLost("slice from_after: statement end not found after %r" % fa)
+                nl = body.find("\n", k)
+                s_from = nl + 1
+            else:
+                s_from = body.find("{") + 1
+            if tb:
+                pb = body.find(tb, s_from)
+                if pb < 0:
+                    raise AnchorLost("slice to_before anchor %r not found in %s" % (tb, item))
+                s_to = line_start(body, pb)
+            else:
+                s_to = body.rfind("}")
+            a = dict(a)
+            a["_range"] = (s_from, s_to)
         f, t = a.get("from"), a.get("to")
         if a.get("_range"):
             s0, e = a["_range"]
